@@ -21,14 +21,13 @@ inductive CRel (fl : Bool) : Clause → Term → Term → Prop
       HeadLayout h cl hargs → cl.code = headCode hargs {} ++ [Op.exit] → CRel fl cl h (.atom "true")
 
 theorem CRel.name {cl : Clause} {h b : Term} (hr : CRel fl cl h b) :
-    cl.name = functorName h ∧ cl.arity = (argList h).length ∧
-    userPred (functorName h) (argList h).length = true := by
+    cl.name = functorName h ∧ cl.arity = (argList h).length := by
   cases hr with
-  | rule hl _ _ _ _ => exact ⟨hl.name, hl.arity, hl.user⟩
-  | fact hl _ => exact ⟨hl.name, hl.arity, hl.user⟩
+  | rule hl _ _ _ _ => exact ⟨hl.name, hl.arity⟩
+  | fact hl _ => exact ⟨hl.name, hl.arity⟩
 
 /-- every clause of the fragment compiles to exactly one clause, related to its head and body -/
-theorem horn_crel (c : Term) (hc : clauseS fl c = true) :
+theorem horn_crel (c : Term) (hc : clauseC fl c = true) :
     ∃ cl, compile (toRep c) = .ok [cl] ∧ CRel fl cl (SLD.headBody c).1 (SLD.headBody c).2 := by
   by_cases hr : ∃ h b, c = .app ":-" (.cons h (.cons b .nil))
   · obtain ⟨h, b, rfl⟩ := hr
@@ -50,12 +49,21 @@ def clauseOf (c : Term) : Clause :=
   | .ok (c1 :: _) => c1
   | _ => ⟨"", 0, .atom "", [], []⟩
 
-theorem clauseOf_spec (c : Term) (hc : clauseS fl c = true) :
+theorem clauseOf_spec (c : Term) (hc : clauseC fl c = true) :
     compile (toRep c) = .ok [clauseOf c] ∧ CRel fl (clauseOf c) (SLD.headBody c).1 (SLD.headBody c).2 := by
   obtain ⟨cl, hcomp, hr⟩ := horn_crel c hc
   have : clauseOf c = cl := by simp [clauseOf, hcomp]
   rw [this]
   exact ⟨hcomp, hr⟩
+
+theorem hornHead_user {h : Term} (hh : hornHead h = true) :
+    userPred (functorName h) (argList h).length = true := by
+  cases h with
+  | atom f => simpa [hornHead, functorName, argList] using hh
+  | app f as =>
+    simp only [hornHead, Bool.and_eq_true] at hh
+    simpa [functorName, argList] using hh.2
+  | _ => simp [hornHead] at hh
 
 /-- predicate indicator of the head of a clause term -/
 def headKey (c : Term) : String × Nat :=
@@ -115,11 +123,11 @@ theorem assertStep_horn (s : St) (c : Term) (hc : clauseS fl c = true) :
         { (lookupProc s (clauseOf c).name (clauseOf c).arity).getD { dynamic := true } with
           clauses := ((lookupProc s (clauseOf c).name (clauseOf c).arity).getD { dynamic := true }).clauses ++ [clauseOf c] } := by
   unfold assertStep
-  rw [(clauseOf_spec c hc).1]
+  rw [(clauseOf_spec c (clauseC_of_S hc)).1]
 
 theorem clauseOf_key (c : Term) (hc : clauseS fl c = true) :
     ((clauseOf c).name, (clauseOf c).arity) = headKey c := by
-  obtain ⟨h1, h2, _⟩ := (clauseOf_spec c hc).2.name
+  obtain ⟨h1, h2⟩ := (clauseOf_spec c (clauseC_of_S hc)).2.name
   simp [headKey, h1, h2]
 
 /-- **the table after asserting a Horn program**: for every predicate indicator, whether it is
@@ -193,7 +201,9 @@ theorem lookup_other (prog : List Term) (hp : ∀ c ∈ prog, clauseS fl c = tru
     intro c hc
     simp only [decide_eq_true_eq]
     intro hk
-    have := ((clauseOf_spec c (hp c hc)).2.name).2.2
+    have hcs := hp c hc
+    simp only [clauseS, Bool.and_eq_true] at hcs
+    have := (hornHead_user hcs.1.2)
     simp only [headKey, Prod.mk.injEq] at hk
     rw [hk.1, hk.2, hu] at this
     cases this
